@@ -222,6 +222,10 @@ def gen_scenario(rng: random.Random, prog, *, crash=0.5, faults=0.0, paging=0.5,
     r2 = random.Random(sc["seed"] ^ 0x5A17)
     if r2.random() < 0.25:
         sc["timer_lag"] = r2.choice([0.4, 3.0, 45.0])
+    if (sc.get("paging") or "resp_page" in sc) and r2.random() < 0.5:
+        # listings with empty pages: somewhere in the middle (still followed by operations) and / or at the very end
+        sc["empty_pages"] = sorted({r2.randrange(1, 5) for _ in range(r2.choice([1, 1, 2]))})
+        sc["trailing_empty_page"] = r2.random() < 0.4
     return sc
 
 
